@@ -128,8 +128,31 @@ def prove(hyps, goal, budget_s=20.0, want_model=True):
     return "unknown", None, "z3-portfolio", total
 
 
+def fp_bump_effective(meta):
+    """IEEE-754 (round-to-nearest-even) obligation: fl(base + eps) > base for every finite float32 AND float64 base
+    (or for the given literal base).  sat means the bump can be absorbed by rounding."""
+    from fractions import Fraction
+    t0 = time.time()
+    eps = Fraction(meta["eps"])
+    for sort, nm in ((z3.Float32(), "float32"), (z3.Float64(), "float64")):
+        s = z3.Solver(); s.set("timeout", 10000)
+        b = z3.FP("base_" + nm, sort)
+        e = z3.FPVal(float(eps), sort)
+        if meta.get("base_num") is not None:
+            s.add(b == z3.FPVal(float(Fraction(meta["base_num"])), sort))
+        s.add(z3.Not(z3.fpIsNaN(b)), z3.Not(z3.fpIsInf(b)))
+        s.add(z3.Not(z3.fpGT(z3.fpAdd(z3.RNE(), b, e), b)))
+        r = s.check()
+        if r != z3.unsat:
+            return {"status": str(r), "backend": "z3-fp(" + nm + ")", "time": time.time() - t0, "model": s.model() if r == z3.sat else None,
+                    "goal": "fl(base + eps) > base"}
+    return {"status": "unsat", "backend": "z3-fp", "time": time.time() - t0, "model": None, "goal": None}
+
+
 def discharge(ob, ctx, budget_s=20.0):
     """discharge one obligation of a path.  Returns dict(status, backend, time, model, stage)."""
+    if ob.kind == "ieee-bump-effective":
+        return fp_bump_effective(ob.meta)
     goals = split_goal(ob.goal)
     total = 0.0
     backend = ""
